@@ -354,6 +354,10 @@ func ValueTree(r *rng.Rand, n *spec.Node, o InOpts, populated bool) any {
 		return nonZero(n, n.Witness, populated)
 	}
 	if !populated && c < o.ValidPct+o.AbsentPct {
+		if n.Kind == spec.String && r.Intn(6) == 0 {
+			// white space is text: not the zero value of a string (Validate), whatever Parse makes of it as input
+			return []string{" ", "   ", "\t", " \n "}[r.Intn(4)]
+		}
 		return obs.NormValue(reflect.Zero(n.GoType()))
 	}
 	return nonZero(n, otherValue(r, n), populated)
